@@ -144,6 +144,9 @@ func (h harness) setup(st *execState) []func() {
 						}
 					}()
 					e.ret = vsched.Tick()
+					if i == len(prog)-1 {
+						st.lru.Len() // a lock left held by a failed operation blocks this call: reported as a deadlock
+					}
 					continue
 				}
 				switch o.kind {
@@ -463,7 +466,9 @@ func exploreHarness(c *runner.Ctx, h harness, bound int, race bool, linCache map
 		}
 		if h.faults {
 			// the oracle here is only: no thread is left waiting, and the cache still answers afterwards
-			pan, msg, site := runner.Guard(func() { st.lru.Len(); st.lru.Load("a"); st.lru.Store("z", 1); st.lru.Delete("z") })
+			// (no removal here: a removal may start a goroutine of the code under test outside the scheduler, which
+			// would still be running when the next execution starts)
+			pan, msg, site := runner.Guard(func() { st.lru.Len(); st.lru.Load("a"); st.lru.Dump() })
 			if pan && !strings.Contains(msg, "refuses b") {
 				report("panic-after-faults@"+site, x, msg)
 				return false
